@@ -117,6 +117,18 @@ impl<H: Hist> RangesSweep<H> {
                 v
             }
             "defects" => defect_lists::<H>(),
+            // neighbouring edges that differ by less than one part in 2^52 (an order test with a
+            // tolerance accepts a decrease that small)
+            "near-ties" => {
+                let up = crate::refmodels::hist::next_up;
+                let down = crate::refmodels::hist::next_down;
+                let a = vec![0., 2e-17, 3e-17, -3e-17, down(1.0), 1.0, up(1.0), up(up(1.0)), 1e15, down(1e15), f64::NAN];
+                let mut v = Vec::new();
+                for n in 1..=H::LEN + 2 {
+                    v.extend(all_lists(&a, n));
+                }
+                v
+            }
             _ => panic!(),
         }
     }
@@ -289,6 +301,9 @@ pub fn plan(tier: Tier) -> Plan {
     checks.push(sweep::<H2>("edge-lists", 2));
     checks.push(sweep::<H3>("edge-lists", 2));
     checks.push(sweep::<H4>("edge-lists", if q { 1 } else { 2 }));
+    checks.push(sweep::<H1>("near-ties", 1));
+    checks.push(sweep::<H2>("near-ties", 1));
+    checks.push(sweep::<H3>("near-ties", 1));
     checks.push(sweep::<H1>("defects", 2));
     checks.push(sweep::<H4>("defects", 2));
     checks.push(sweep::<H10>("defects", 2));
